@@ -264,3 +264,15 @@ def c11_6(cx):
         n += 1
         cx.only_if(c, Site(c, r, len(c.blocks[r]["stmts"])), emp, "complete_cycle_query completes only without accumulated inputs")
     cx.require(n >= 1, "return of complete_cycle_query")
+
+
+@ob("C10.8", ["C10", "C02"], "every call of specify installs a memo stamped with the CURRENT specification's changed_at/durability; a shortcut that keeps an older memo alive (e.g. because the value is equal) keeps its older, possibly more durable stamp: a later low-durability write that switches the specification off no longer invalidates it", kind="MUSTCALL (skipped only if)")
+def c10_8(cx):
+    """specify_and_record returns without inserting a new memo only if the claim was not obtained (the function is running / cycle) or a value produced by ANOTHER source in this revision wins (old memo verified in this revision, has a value, origin not Assigned); in every other case insert_memo(.., Memo::new(Some(value), revision, ..)) is reached."""
+    b = cx.fn(SP)
+    ins = cx.one_call(b, r"^function::IngredientImpl::<C>::insert_memo$", "insert_memo in specify_and_record")
+    claim = r"SyncTable::try_claim\("
+    memo = r"get_memo_from_table_for\("
+    lits = [VariantIn(claim, {"Running", "Cycle"}, desc="the function is being executed (claim not obtained)"),
+            VariantIn(r"MemoHeader::origin\(.*\)$", {"Derived", "DerivedUntracked"}, desc="a computed value of this revision wins")]
+    cx.skipped_only_if(b, ins, lits, "specify installs a fresh memo unless the function is running or a computed value of this revision wins")
